@@ -450,12 +450,17 @@ Definition chunk_body (k : chunk) : body := assemble [k].
 Definition in_transcript (t : HandshakeType) : bool :=
   negb (existsb (HandshakeType_eqb t) transcript_excluded).
 
-Inductive verdict : Set := VAccept | VSkip | VDup.
+Inductive verdict : Set := VAccept | VSkip | VDup | VResend.
+
+Definition is_connected (c : ctx) : bool := match st c with StConnected _ _ => true | _ => false end.
 
 Definition seq_filter (c : ctx) (t : HandshakeType) (f : frag) : ctx * verdict :=
   if f_seq f <? rseq c then
     if post_hvr c && is_client c then (c <| rseq := f_seq f |> <| post_hvr := false |>, VAccept)
-    else (c, if HandshakeType_eqb t dup_retrigger_type && negb (is_client c) then VDup else VSkip)
+    else (c, if HandshakeType_eqb t dup_retrigger_type && negb (is_client c) then VDup
+             (* a Connected server answers a retransmitted client Finished with its last flight (1decd50) *)
+             else if HandshakeType_eqb t dup_reflight_type && negb (is_client c) && is_connected c then VResend
+             else VSkip)
   else if rseq c <? f_seq f then
     if post_hvr c && is_client c then (c <| rseq := f_seq f |> <| post_hvr := false |>, VAccept)
     else (c, VSkip)
@@ -490,6 +495,7 @@ Fixpoint process_frags (c : ctx) (fs : list frag) : hres :=
         else let '(c3, o3, e3) := process_frags c2 rest in (c3, o ++ o3, e3) in
       match v with
       | VSkip => process_frags c1 rest
+      | VResend => let '(c3, o3, e3) := process_frags c1 rest in (c3, resend c1 ++ o3, e3)
       | VDup => after (handle_msg c1 t (mkH (f_type f) (f_seq f) (chunk_body (f_data f))))
       | VAccept =>
         let '(c2, ob) := reassemble c1 f in
@@ -638,6 +644,7 @@ Example flights_as_modelled :
                    HandshakeType_ServerHelloDone] /\
   client_flight = [HandshakeType_ClientKeyExchange; HandshakeType_Finished] /\
   finished_flight = [HandshakeType_Finished] /\ hvr_flight = [HandshakeType_ClientHello] /\
-  dup_retrigger_type = HandshakeType_ClientHello /\ client_flight_keeps_cke = true /\
+  dup_retrigger_type = HandshakeType_ClientHello /\ dup_reflight_type = HandshakeType_Finished /\
+  client_flight_keeps_cke = true /\
   key_block_slices = [(0, 16); (16, 32); (32, 36); (36, 40)].
 Proof. repeat split; reflexivity. Qed.
